@@ -5,6 +5,8 @@ import BFL.Proofs.UTCirc
 import BFL.Proofs.UTEuler
 import BFL.Proofs.UTEulerAffine
 import BFL.Proofs.UTQuat
+import BFL.Model.UTStore
+import BFL.Proofs.UTStore
 import Mathlib.Analysis.Matrix.Order
 import Mathlib.Analysis.SpecialFunctions.Sqrt
 /-
@@ -603,5 +605,186 @@ example : (0 : ℝ) < utLambda 1 (1 : ℝ) 0 / (((1 : ℕ) : ℝ) + utLambda 1 (
   linarith
 
 end circular
+
+/-! ### `augmentWithNoise` on the shared storage: refinement, necessity of the loop order, histories
+
+The covariances of all components live side by side in one matrix; `augmentWithNoise` resizes it in place and
+moves the old blocks to their new offsets by column swaps — last component first, last column first
+(`BFL.augmentStore`, GaussianMixture.cpp:190-247).  The value-level model `BFL.augmentWithNoise`
+(`[m; 0]`, `blockdiag(P_i, Q)`) used by every theorem above is a specification of that algorithm: -/
+
+section storage
+open UTStoreProofs
+
+/-- **Refinement.**  For every number of components, every size of state and noise block and every content, the
+    in-place algorithm leaves in block `i` of the storage exactly `blockdiag(P_i, Q)`: the covariance of component `i`
+    of the value-level model. -/
+theorem ut_augment_store_refines {α : Type} [Zero α] [Inhabited α] {d z k : ℕ} (b : GM α d k) (Q : Mat α z z) (i : Fin k) :
+    covOfStore (d + z) (augmentStore d z k Q (storeOf b)) i = (augmentWithNoise b Q).cov i := by
+  apply Mat.ext; intro r c
+  simp only [covOfStore, Mat.eval_eq, Mat.of_apply]
+  rw [augmentStore_spec d z k Q (storeOf b) i.val c.val r.val i.isLt r.isLt c.isLt]
+  simp only [augmentWithNoise, Mat.eval_eq, Mat.of_apply]
+  by_cases hr : r.val < d
+  · by_cases hc : c.val < d
+    · simp only [hr, hc, if_true, dite_true]
+      exact storeOf_block b i r.val c.val hr hc
+    · simp only [hr, hc, if_true, if_false, dite_true, dite_false]
+  · by_cases hc : c.val < d
+    · simp only [hr, hc, if_true, if_false, dite_true, dite_false]
+    · simp only [hr, hc, if_false, dite_false]
+      exact getZ_lt Q _ _ (by have := r.isLt; omega) (by have := c.isLt; omega)
+
+/-- **End to end on the storage**: the unscented transform of the mixture whose covariances are read back from the
+    storage left by the in-place augmentation, through `(x, w) ↦ A x + D w + b`, yields `A m + b`,
+    `A P Aᵀ + D Q Dᵀ`, `P Aᵀ` — `ut_augmented_affine` carried through the refinement. -/
+theorem ut_augmented_affine_on_storage (fac : α → Mat α (nx + nz) (nx + nz) → Mat α (nx + nz) (nx + nz))
+    (alpha beta kappa : α) (hc : ((nx + nz : ℕ) : α) + utLambda (nx + nz) alpha kappa ≠ 0)
+    (b : GM α nx k) (Q : Mat α nz nz)
+    (hfac : ∀ i : Fin k, FacOn fac (utWeights (nx + nz) alpha beta kappa).c
+      (covOfStore (nx + nz) (augmentStore nx nz k Q (storeOf b)) i))
+    (A : Mat α ny nx) (D : Mat α ny nz) (bv : Vec α ny) :
+    ∃ o, unscentedTransform (nx := nx) (nz := nz) fac (utWeights (nx + nz) alpha beta kappa)
+          { mean := (augmentWithNoise b Q).mean
+            cov := covOfStore (nx + nz) (augmentStore nx nz k Q (storeOf b))
+            weight := b.weight }
+          (fun X => some (affineMap (hcat A D) bv X)) = some o ∧
+      ∀ i, toV (o.mean i) = toM A *ᵥ toV (b.mean i) + toV bv ∧
+           toM (o.cov i) = toM A * toM (b.cov i) * (toM A)ᵀ + toM D * toM Q * (toM D)ᵀ ∧
+           toM (o.cross i) = toM (b.cov i) * (toM A)ᵀ := by
+  have hcov : (covOfStore (nx + nz) (augmentStore nx nz k Q (storeOf b)) : Fin k → Mat α (nx + nz) (nx + nz))
+      = (augmentWithNoise b Q).cov :=
+    funext (fun i => ut_augment_store_refines b Q i)
+  have hb : ({ mean := (augmentWithNoise b Q).mean
+               cov := covOfStore (nx + nz) (augmentStore nx nz k Q (storeOf b))
+               weight := b.weight } : GM α (nx + nz) k) = augmentWithNoise b Q := by
+    rw [hcov]; rfl
+  rw [hb]
+  rw [hcov] at hfac
+  exact ut_augmented_affine fac alpha beta kappa hc b Q hfac A D bv
+
+/-- The same statement entry by entry, for an arbitrary content of the storage (nothing is assumed about the
+    blocks: no symmetry, no definiteness). -/
+theorem ut_augment_store_entries {α : Type} [Zero α] [Inhabited α] (d z k : ℕ) (Q : Mat α z z) (s : Store α)
+    (i cc r : ℕ) (hi : i < k) (hr : r < d + z) (hc : cc < d + z) :
+    augmentStore d z k Q s r (i * (d + z) + cc) =
+      if r < d then (if cc < d then s r (i * d + cc) else 0)
+      else (if cc < d then 0 else Q.getZ (r - d) (cc - d)) :=
+  augmentStore_spec d z k Q s i cc r hi hr hc
+
+/-- **The order of the loop is necessary.**  Run in ascending component order (`for (i = 1; i < components; i++)`,
+    seed C03-r4-2) the same swaps overwrite blocks that have not been moved yet: with one state row, one noise row
+    and three components holding the variances `1, 2, 3`, the third component ends up with the variance `2` of the
+    second one — whereas the descending loop yields `3` (`ut_augment_store_entries`). -/
+theorem ut_augment_store_ascending_counterexample :
+    augmentStoreAsc 1 1 3 (Mat.of (fun _ _ => (7 : ℤ))) (fun _ c => (c : ℤ) + 1) 0 (2 * (1 + 1) + 0) = 2 ∧
+    augmentStore 1 1 3 (Mat.of (fun _ _ => (7 : ℤ))) (fun _ c => (c : ℤ) + 1) 0 (2 * (1 + 1) + 0) = 3 := by
+  decide
+
+/-- … and it cannot be seen with two components: there both orders are the same sequence of swaps. -/
+theorem ut_augment_store_ascending_two {α : Type} (d D : ℕ) (s : Store α) :
+    Store.moveBlocksAsc d D 1 s = Store.moveBlocks d D 1 s := rfl
+
+/-- **Histories.**  After any sequence of `augmentWithNoise` calls on one object, split anywhere into an earlier and
+    a later part: the dimension has grown by the sizes of all blocks; the mixture reached after the earlier part is
+    the top-left block of the final one (means and covariances, entry by entry), everything appended later to the
+    means is zero, rows/columns appended later are uncorrelated with it, and the weights are those of the start. -/
+theorem ut_augment_history {α : Type} [Zero α] [Inhabited α] [Add α] [Sub α] [Mul α] [Div α] [NatCast α] {k : ℕ}
+    (s : AnyGM α k) (earlier later : List (AnySq α)) :
+    let mid := s.augmentAll earlier
+    let fin := s.augmentAll (earlier ++ later)
+    fin.n = s.n + ((earlier ++ later).map (·.z)).sum ∧
+    (∀ i r, r < mid.n → fin.meanZ i r = mid.meanZ i r) ∧
+    (∀ i r, mid.n ≤ r → fin.meanZ i r = 0) ∧
+    (∀ i r c, r < mid.n → c < mid.n → fin.covZ i r c = mid.covZ i r c) ∧
+    (∀ i r c, (r < mid.n ∧ mid.n ≤ c) ∨ (mid.n ≤ r ∧ c < mid.n) → fin.covZ i r c = 0) ∧
+    fin.g.weight = s.g.weight := by
+  intro mid fin
+  have hfin : fin = mid.augmentAll later := by
+    simp only [fin, mid, AnyGM.augmentAll, List.foldl_append]
+  obtain ⟨_, h2, h3, h4, h5, h6⟩ := augmentAll_keeps later mid
+  obtain ⟨g1, _, _, _, _, g6⟩ := augmentAll_keeps (earlier ++ later) s
+  refine ⟨g1, ?_, ?_, ?_, ?_, g6⟩
+  · rw [hfin]; exact h2
+  · rw [hfin]; exact h3
+  · rw [hfin]; exact h4
+  · rw [hfin]; exact h5
+
+/-- The layout bookkeeping of such a history (`dim_noise += dim_added`, code after fix ad6ea89): the noise rows
+    add up, the degrees of freedom and the total size grow by the same amount, the rest of the layout is untouched. -/
+theorem ut_layout_noise_history (ly : Layout) (zs : List ℕ) :
+    (ly.addNoiseAll zs).noise = ly.noise + zs.sum ∧
+    (ly.addNoiseAll zs).dof = ly.dof + zs.sum ∧
+    (ly.addNoiseAll zs).dim = ly.dim + zs.sum ∧
+    (ly.addNoiseAll zs).noiseless = ly.noiseless := by
+  obtain ⟨h1, h2, h3, h4⟩ := addNoiseAll_spec zs ly
+  refine ⟨h1, ?_, ?_, ?_⟩
+  · simp only [Layout.dof, h1, h2, h3, h4]; split <;> omega
+  · simp only [Layout.dim, Layout.csize, h1, h2, h3, h4]; omega
+  · cases hly : ly.addNoiseAll zs with
+    | mk l c q n =>
+      cases ly with
+      | mk l' c' q' n' =>
+        simp only [hly] at h2 h3 h4
+        simp only [Layout.noiseless, h2, h3, h4]
+
+/-- Non-vacuity: a history of two augmentations (sizes 1 and 2) of a one-dimensional, two-component mixture
+    reaches dimension 4 and keeps the variance of component 1. -/
+example : ((⟨1, ⟨fun _ => Vec.of (fun _ => (5 : ℚ)), fun i => Mat.of (fun _ _ => (i.val : ℚ) + 2), Vec.of (fun _ => 1 / 2)⟩⟩ : AnyGM ℚ 2).augmentAll
+      [⟨1, Mat.of (fun _ _ => 7)⟩, ⟨2, Mat.of (fun a c => if a = c then 3 else 0)⟩]).n = 4 := rfl
+
+end storage
+
+/-! ### `UTWeight` constructors -/
+
+/-- Both constructors give the same weights: the one taking a `VectorDescription` is the one taking the number of
+    degrees of freedom at `dof_size()` (a quaternion counts three); vectors of `2·dof + 1` entries (by type). -/
+theorem ut_weights_ctor_agree (ly : Layout) (alpha beta kappa : α) :
+    UTWeight.ofLayout ly alpha beta kappa = UTWeight.ofDof ly.dof alpha beta kappa ∧
+    UTWeight.ofDof ly.dof alpha beta kappa = utWeights ly.dof alpha beta kappa := ⟨rfl, rfl⟩
+
+/-- … hence for every layout (linear, Euler, quaternion, noise rows) the mean weights sum to one. -/
+theorem ut_weights_layout_sum_one (ly : Layout) (alpha beta kappa : α)
+    (hc : (ly.dof : α) + utLambda ly.dof alpha kappa ≠ 0) :
+    ∑ j, (UTWeight.ofLayout ly alpha beta kappa).mean j = 1 :=
+  ut_weights_sum_one ly.dof alpha beta kappa hc
+
+/-! ### A common translation of the propagated points -/
+
+section translation
+open UTStoreProofs
+
+/-- **Translation invariance of the moment computation** (what forming the offsets from the mean buys): for any
+    weights whose mean weights sum to one — no symmetry, no sign condition — adding one vector `t` to every propagated
+    point adds `t` to the output mean and changes neither the covariance nor the cross-covariance. -/
+theorem ut_translation_invariant {α : Type} [CommRing α] [Inhabited α] {nx nz ny : ℕ}
+    (w : UTWeight α (nx + nz)) (hw : ∑ j, w.mean j = 1) (inMean : Vec α (nx + nz))
+    (X : Mat α (nx + nz) (2 * (nx + nz) + 1)) (Y : Mat α ny (2 * (nx + nz) + 1)) (t : Vec α ny) :
+    (∀ i, (utComponent (nx := nx) (nz := nz) w inMean X (translateCols Y t)).1 i
+            = (utComponent (nx := nx) (nz := nz) w inMean X Y).1 i + t i) ∧
+    (utComponent (nx := nx) (nz := nz) w inMean X (translateCols Y t)).2.1 = (utComponent (nx := nx) (nz := nz) w inMean X Y).2.1 ∧
+    (utComponent (nx := nx) (nz := nz) w inMean X (translateCols Y t)).2.2 = (utComponent (nx := nx) (nz := nz) w inMean X Y).2.2 := by
+  have hm := translate_mean Y t w.mean hw
+  have hoff := translate_offsets Y t (Y.mulVec w.mean) ((translateCols Y t).mulVec w.mean) hm
+  refine ⟨hm, ?_, ?_⟩
+  · simp only [utComponent, Mat.eval_eq, hoff]
+  · simp only [utComponent, Mat.eval_eq, hoff]
+
+/-- Over a commutative ring the expanded formula `Y diag(w) Yᵀ − (Y w) mᵀ − m (Y w)ᵀ + (Σ w) m mᵀ` (and
+    `dX diag(w) Yᵀ − (dX w) mᵀ` for the cross-covariance) is the covariance of the offsets, for every centre `m` and
+    every weight vector: a rewrite of the code into that form (seed C04-r4-2) is correct in exact arithmetic.  In
+    floating point it is not translation invariant (it loses `ε·|m|²`); the check executes both forms on `Float` on
+    its far-from-the-origin cases and reports how many of them tell the two apart. -/
+theorem ut_naive_eq_offsets {α : Type} [CommRing α] [Inhabited α] {ny N r : ℕ}
+    (wc : Vec α N) (Y : Mat α ny N) (m : Vec α ny) (Din : Mat α r N) :
+    utCovNaive wc Y m = utCov wc (utOffsets Y m) (utOffsets Y m) ∧
+    utCrossNaive wc Din Y m = utCov wc Din (utOffsets Y m) :=
+  ⟨naive_eq_offsets wc Y m, crossNaive_eq_offsets wc Din Y m⟩
+
+/-- Non-vacuity of `ut_translation_invariant`: the unscented weights meet its hypothesis. -/
+example (n : ℕ) (alpha beta kappa : ℚ) (hc : (n : ℚ) + utLambda n alpha kappa ≠ 0) :
+    ∑ j, (utWeights n alpha beta kappa).mean j = 1 := ut_weights_sum_one n alpha beta kappa hc
+
+end translation
 
 end BFL
